@@ -66,6 +66,10 @@ type CoreOpts struct {
 	RevokeRetryBase  time.Duration
 	EnableRaw        bool
 	DisableKeyChecks bool
+	// HA: a shared lock service and this node's advertised address (two Cores
+	// over one simulated disk form an active/standby pair)
+	HA       physical.HABackend
+	Redirect string
 }
 
 // CoreH is a booted core with what the harness knows about it.
@@ -109,6 +113,10 @@ func coreConfig(d *Disk, o CoreOpts) *vault.CoreConfig {
 		EnableRaw:                 o.EnableRaw,
 		DisableKeyEncodingChecks:  o.DisableKeyChecks,
 		RollbackPeriod:            time.Hour,
+	}
+	if o.HA != nil {
+		conf.HAPhysical = o.HA
+		conf.RedirectAddr = o.Redirect
 	}
 	if conf.NumExpirationWorkers == 0 {
 		conf.NumExpirationWorkers = 4
